@@ -361,5 +361,145 @@ theorem rfc9171Shape_enc (b : Bundle) (h : rfcWf b = true) : rfc9171Shape b.enc 
     | nil => rw [hb] at hpl; simp [payloadLast] at hpl
     | cons c cs => rw [hb] at hpl; simp [okSeq, hpl]
 
+/-! ### RFC 9171 well-formed EIDs are fixed points of the code's normalisation -/
+
+theorem forall_u8 (P : UInt8 → Bool) (h : ∀ n, n < 256 → P (UInt8.ofNat n) = true) (c : UInt8) :
+    P c = true := by
+  have := h c.toNat c.toNat_lt
+  simpa using this
+
+theorem nameChar_facts (c : UInt8) :
+    (!isNameChar c || (!isDelim c && !oddAuth c && !isQF c && (c != 9 && c != 10 && c != 13))) = true :=
+  forall_u8 (fun c => !isNameChar c || (!isDelim c && !oddAuth c && !isQF c && (c != 9 && c != 10 && c != 13)))
+    (by decide +kernel) c
+
+theorem vchar_facts (c : UInt8) : (!isVchar c || (c != 9 && c != 10 && c != 13)) = true :=
+  forall_u8 (fun c => !isVchar c || (c != 9 && c != 10 && c != 13)) (by decide +kernel) c
+
+theorem mem_takeWhile_sat {α} (p : α → Bool) (l : List α) : ∀ a ∈ l.takeWhile p, p a = true := by
+  induction l with
+  | nil => simp
+  | cons x xs ih =>
+    intro a ha
+    rw [List.takeWhile_cons] at ha
+    by_cases hx : p x = true
+    · simp only [hx, if_true, List.mem_cons] at ha
+      rcases ha with rfl | ha
+      · exact hx
+      · exact ih a ha
+    · simp [hx] at ha
+
+theorem takeWhile_app {α} (p : α → Bool) (l₁ : List α) (x : α) (l₂ : List α)
+    (h : ∀ a ∈ l₁, p a = true) (hx : p x = false) : (l₁ ++ x :: l₂).takeWhile p = l₁ := by
+  induction l₁ with
+  | nil => simp [hx]
+  | cons a l ih =>
+    simp only [List.cons_append, List.takeWhile_cons, h a (by simp), if_true]
+    rw [ih (fun b hb => h b (by simp [hb]))]
+
+theorem dropWhile_app {α} (p : α → Bool) (l₁ l₂ : List α) (h : ∀ a ∈ l₁, p a = true) :
+    (l₁ ++ l₂).dropWhile p = l₂.dropWhile p := by
+  induction l₁ with
+  | nil => rfl
+  | cons a l ih =>
+    simp only [List.cons_append, List.dropWhile_cons, h a (by simp), if_true]
+    exact ih (fun b hb => h b (by simp [hb]))
+
+theorem normSsp_rfc (name dm : Bytes) (hn : ∀ c ∈ name, isNameChar c = true) (hne : name ≠ [])
+    (hd : ∀ c ∈ dm, isVchar c = true) :
+    normSsp ([0x2f, 0x2f] ++ (name ++ 0x2f :: dm)) = some ([0x2f, 0x2f] ++ (name ++ 0x2f :: dm)) := by
+  have fN : ∀ c ∈ name, (!isDelim c) = true ∧ (!oddAuth c) = true ∧ (!isQF c) = true
+      ∧ (c != 9 && c != 10 && c != 13) = true := by
+    intro c hc
+    have := nameChar_facts c
+    simp only [hn c hc, Bool.not_true, Bool.false_or, Bool.and_eq_true] at this
+    exact ⟨this.1.1.1, this.1.1.2, this.1.2, by simpa [Bool.and_eq_true] using this.2⟩
+  have fD : ∀ c ∈ dm, (c != 9 && c != 10 && c != 13) = true := by
+    intro c hc
+    have := vchar_facts c
+    simpa [hd c hc] using this
+  have hstrip : stripTRN ([0x2f, 0x2f] ++ (name ++ 0x2f :: dm)) = [0x2f, 0x2f] ++ (name ++ 0x2f :: dm) := by
+    unfold stripTRN
+    rw [List.filter_eq_self]
+    intro c hc
+    simp only [List.mem_append, List.mem_cons, List.not_mem_nil, or_false] at hc
+    rcases hc with (rfl | rfl) | hc | rfl | hc
+    · decide
+    · decide
+    · exact (fN c hc).2.2.2
+    · decide
+    · exact fD c hc
+  have htw : (name ++ 0x2f :: dm).takeWhile (fun c => !isDelim c) = name :=
+    takeWhile_app _ name 0x2f dm (fun c hc => (fN c hc).1) (by decide)
+  have hdw : (name ++ 0x2f :: dm).dropWhile (fun c => !isDelim c) = 0x2f :: dm := by
+    rw [dropWhile_app _ name _ (fun c hc => (fN c hc).1)]
+    simp [show isDelim 0x2f = true by decide]
+  have hany : name.any oddAuth = false := by
+    rw [List.any_eq_false]
+    intro c hc
+    have := (fN c hc).2.1
+    simpa using this
+  have hemp : name.isEmpty = false := by
+    cases name with
+    | nil => exact absurd rfl hne
+    | cons => rfl
+  have htail : tailQF ([0x2f, 0x2f] ++ (name ++ 0x2f :: dm)) = tailQF dm := by
+    unfold tailQF
+    rw [show ([0x2f, 0x2f] ++ (name ++ 0x2f :: dm) : Bytes) = ([0x2f, 0x2f] ++ name ++ [0x2f]) ++ dm by simp]
+    apply dropWhile_app
+    intro c hc
+    simp only [List.mem_append, List.mem_cons, List.not_mem_nil, or_false] at hc
+    rcases hc with ((rfl | rfl) | hc) | rfl
+    · decide
+    · decide
+    · exact (fN c hc).2.2.1
+    · decide
+  have hcut : cutQF (0x2f :: dm) = 0x2f :: cutQF dm := by
+    simp [cutQF, show isQF 0x2f = false by decide]
+  unfold normSsp
+  simp only [hstrip, htail]
+  simp only [List.take_append_of_le_length (show 2 ≤ ([0x2f, 0x2f] : Bytes).length by simp), List.take,
+    List.drop_append_of_le_length (show 2 ≤ ([0x2f, 0x2f] : Bytes).length by simp), List.drop,
+    beq_self_eq_true, if_true, htw, hdw, hany, hemp, Bool.false_eq_true, if_false, hcut,
+    List.head?_cons, List.nil_append]
+  simp only [cutQF, tailQF, List.append_assoc, List.cons_append, List.takeWhile_append_dropWhile]
+
+theorem rfcEid_wf (e : Eid) (h : rfcEid e = true) : wfEid e = true := by
+  cases e with
+  | dtnNone => decide
+  | ipn ps =>
+    simp only [rfcEid, Bool.and_eq_true, beq_iff_eq] at h
+    have hne : ps.isEmpty = false := by
+      cases ps with
+      | nil => simp at h
+      | cons => rfl
+    simp [wfEid, normEid, hne, h.1, h.2, u64]
+  | dtn ssp =>
+    simp only [rfcEid, Bool.and_eq_true, beq_iff_eq, Bool.not_eq_true'] at h
+    obtain ⟨⟨hlen, htake⟩, ⟨hname, hhead⟩, hall⟩ := h
+    have hsplit : ssp = [0x2f, 0x2f] ++ ((ssp.drop 2).takeWhile isNameChar
+        ++ 0x2f :: ((ssp.drop 2).dropWhile isNameChar).tail) := by
+      have h1 : ssp = ssp.take 2 ++ ssp.drop 2 := (List.take_append_drop 2 ssp).symm
+      have h2 : ssp.drop 2 = (ssp.drop 2).takeWhile isNameChar ++ (ssp.drop 2).dropWhile isNameChar :=
+        (List.takeWhile_append_dropWhile).symm
+      have h3 : (ssp.drop 2).dropWhile isNameChar
+          = 0x2f :: ((ssp.drop 2).dropWhile isNameChar).tail := by
+        cases hd : (ssp.drop 2).dropWhile isNameChar with
+        | nil => rw [hd] at hhead; simp at hhead
+        | cons x xs => rw [hd] at hhead; simp at hhead; simp [hhead]
+      rw [htake] at h1
+      refine h1.trans ?_
+      congr 1
+      rw [← h3]; exact h2
+    have hnorm := normSsp_rfc ((ssp.drop 2).takeWhile isNameChar)
+      (((ssp.drop 2).dropWhile isNameChar).tail)
+      (mem_takeWhile_sat _ _)
+      (by intro hnil; rw [hnil] at hname; simp at hname)
+      (by rw [List.all_eq_true] at hall; exact hall)
+    rw [← hsplit] at hnorm
+    have hnn : (ssp == sspNone) = false := by
+      rw [hsplit]; simp [sspNone]
+    simp [wfEid, normEid, hnn, hnorm, hlen]
+
 end Bp
 end DtnVerif
